@@ -26,6 +26,14 @@ PROPS = {
         "trusted": ["'conventional' = result under policy None (which still runs the interval pass)"],
         "assumptions": COMMON_ASSUME,
     },
+    "C09": {
+        "level": "proof",
+        "units": ["extlat", "adj", "jd", "civil"],
+        "rule": "falsifier: NearestGoodDay* vs policy None on neighbouring dates (brute-force closest good day, earlier on ties, within +-366 days), |lat|<=64 weighted to 48..64 both hemispheres and to the local summer; non-trivial = distinct (variant, distance to the good day, date class) with a twilight missing",
+        "trusted": ["existence of a good day within the year for |lat|<=64 is astronomical: decided by the falsifier, not a theorem",
+                    "JulianDay::sub/add value vs the Julian Day of the stepped date: equal over the reals (Thm C13), 1 ulp in floats (falsifier tolerance DESIGN §9.5)"],
+        "assumptions": COMMON_ASSUME,
+    },
     "C11": {
         "level": "proof",
         "units": ["h2t", "ptdt"],
